@@ -27,6 +27,8 @@ contract(F, "iterRange",
          modifies=BOOK,
          ensures={"C07 C04 C10": [
              "unchanged_list(self.coords)", "unchanged_list(self.payloads)",
+             # without a start position the saved-position bookkeeping is not touched at all
+             "implies(isnone(start_pos), self._saved_pos == old(self._saved_pos) and self._saved_count == old(self._saved_count) and self._saved_dist == old(self._saved_dist))",
              "forall(lambda a, b: implies(0 <= a and a < b and b < len(out), out[a][0] < out[b][0]))",
              # the saved position addresses the last element yielded (a legal shortcut for any later traversal)
              "isnone(start_pos) or len(out) == 0 or (0 <= self._saved_pos < len(self.coords) and self.coords[self._saved_pos] == out[len(out) - 1][0])",
@@ -39,7 +41,7 @@ contract(F, "iterRange",
              types={"coord": "int", "payload": "Payload|Fiber", "j": "int"},
              modifies=BOOK,
              invariant=[
-                 "wf(self)", "i >= 0", "not is_collecting",
+                 "wf(self)", "i >= 0", "not is_collecting", "implies(isnone(start_pos), self._saved_pos == old(self._saved_pos) and self._saved_count == old(self._saved_count) and self._saved_dist == old(self._saved_dist))",
                  "isnone(start_pos) or len(out) == 0 or (0 <= self._saved_pos < len(self.coords) and self.coords[self._saved_pos] == out[len(out) - 1][0])",
                  "forall(lambda a, b: implies(0 <= a and a < b and b < len(out), out[a][0] < out[b][0]))",
                  "forall(lambda k: out[k][0] < self.coords[i + _i0], 0, len(out)) or i + _i0 >= len(self.coords)",
@@ -51,20 +53,13 @@ contract(F, "iterRange",
 # ---------------------------------------------------------------- co-iteration (C04)
 contract(F, "_get_next", inline=True)
 
-# what a fiber *presents*: by definition the sequence its iterator yields; the only facts the merges need are
-# strict ascent and (for payload identity) that the pairs are the fiber's own stored payload objects (iterRange, proved above)
-contract(F, "__iter__", verify=False, tier="B",
-         cases=[dict(self="Fiber"), dict(self="Fiber", tick="bool")], case_names=["plain", "tick"],
-         yields=dict(elem=ELEM),
-         requires=["wf(self)"],
-         modifies=[],
-         ensures=["forall(lambda a, b: implies(0 <= a and a < b and b < len(result.seq), result.seq[a][0] < result.seq[b][0]))",
-                  # at a leaf rank what is presented are boxes
-                  "implies(self.g_leaf, forall(lambda k: typeis(result.seq[k][1], 'Payload'), 0, len(result.seq)))",
-                  # a presented coordinate is a stored one (compressed) or lies in the active range (uncompressed formats walk the range)
-                  "forall(lambda k: member(result.seq[k][0], self.coords) or (self.g_active0 <= result.seq[k][0] and result.seq[k][0] < self.g_active1), 0, len(result.seq))"],
-         note="format dispatch (owner/rank attrs) to iterOccupancy/iterActiveShape is exercised by C07's bounded part; "
-              "the compressed branch is iterRange(None, None), proved above")
+# what a fiber *presents* is the sequence Fiber.__iter__ yields: its contract (format dispatch to iterRange / iterRangeShape, proved) is in
+# wrappers.py.  FMT_OK: the operand is traversed compressed (any rank), or uncompressed at a leaf rank holding boxes.
+def FMT_OK(x):
+    fmt = "(val(%s._owner)._attrs._fmt if not isnone(%s._owner) else %s._rank_attrs._fmt)" % (x, x, x)
+    return ("(%s == 'C' or (%s == 'U' and isnone(%s._max_coord) and %s.g_leaf and forall(lambda k: typeis(%s.payloads[k], 'Payload'), 0, len(%s.payloads))))"
+            % (fmt, fmt, x, x, x, x))
+
 
 A_HEAD = ("((not isnone(a_coord)) and (not isnone(a_payload)) and a.cur >= 1 and a.cur <= len(a.seq) and val(a_coord) == a.seq[a.cur - 1][0] and val(a_payload) is a.seq[a.cur - 1][1])"
           " or (isnone(a_coord) and a.cur == len(a.seq))")
@@ -84,7 +79,7 @@ AND_COMPLETE = ("forall(lambda i, j: implies(0 <= i and i < len(a.seq) and 0 <= 
 
 contract(F, "__and__.and_iterator.__iter__", types=dict(self="and_iterator"),
          yields=dict(elem="tuple[int,tuple[Payload|Fiber,Payload|Fiber]]"),
-         requires=["wf(self.a_fiber)", "wf(self.b_fiber)", "not Metrics.collecting"],
+         requires=["wf(self.a_fiber)", "wf(self.b_fiber)", "not Metrics.collecting", FMT_OK("self.a_fiber"), FMT_OK("self.b_fiber")],
          modifies=[],
          ensures={"C04 C10": [
              SORTED_OUT.replace("a.", "final(a)."),
@@ -138,7 +133,8 @@ OR_INV = ["not is_collecting", "not a_traced", "not b_traced", SORTED_A, SORTED_
           OUT_LT, H_A, H_B, GE_A, GE_B] + or_sound(DONE_A, DONE_B) + [
           "forall(lambda i: exists(lambda k: 0 <= k and k < len(out) and out[k][0] == a.seq[i][0], witness=[len(out) - 1]), 0, " + DONE_A + ")",
           "forall(lambda j: exists(lambda k: 0 <= k and k < len(out) and out[k][0] == b.seq[j][0], witness=[len(out) - 1]), 0, " + DONE_B + ")"]
-LEAF_AB = ["wf(self.a_fiber)", "wf(self.b_fiber)", "self.a_fiber.g_leaf", "self.b_fiber.g_leaf", "not Metrics.collecting"]
+LEAF_AB = ["wf(self.a_fiber)", "wf(self.b_fiber)", "self.a_fiber.g_leaf", "self.b_fiber.g_leaf", "not Metrics.collecting",
+           FMT_OK("self.a_fiber"), FMT_OK("self.b_fiber")]
 
 contract(F, "__or__.or_iterator.__iter__", types=dict(self="or_iterator"),
          yields=dict(elem=UNION_ELEM),
@@ -156,7 +152,8 @@ contract(F, "__or__.or_iterator.__iter__", types=dict(self="or_iterator"),
 XOR_INV = ([SORTED_A, SORTED_B, A_HEAD, B_HEAD, SORTED_OUT, OUT_LT, H_A, H_B, GE_A, GE_B] + or_sound(DONE_A, DONE_B, with_ab=False) + [
     "forall(lambda i: exists(lambda j: 0 <= j and j < len(b.seq) and b.seq[j][0] == a.seq[i][0]) or exists(lambda k: 0 <= k and k < len(out) and out[k][0] == a.seq[i][0], witness=[len(out) - 1]), 0, " + DONE_A + ")",
     "forall(lambda j: exists(lambda i: 0 <= i and i < len(a.seq) and a.seq[i][0] == b.seq[j][0]) or exists(lambda k: 0 <= k and k < len(out) and out[k][0] == b.seq[j][0], witness=[len(out) - 1]), 0, " + DONE_B + ")"])
-XOR_LEAF = ["wf(self.a_fiber)", "wf(self.b_fiber)", "self.a_fiber.g_leaf", "self.b_fiber.g_leaf"]
+XOR_LEAF = ["wf(self.a_fiber)", "wf(self.b_fiber)", "self.a_fiber.g_leaf", "self.b_fiber.g_leaf", "not Metrics.collecting",
+            FMT_OK("self.a_fiber"), FMT_OK("self.b_fiber")]
 
 contract(F, "__xor__.xor_iterator.__iter__", types=dict(self="xor_iterator"),
          yields=dict(elem=UNION_ELEM),
@@ -177,7 +174,7 @@ SUB_INV = [SORTED_A, SORTED_B, A_HEAD, B_HEAD, SORTED_OUT, OUT_LT, H_A, H_B, GE_
 
 contract(F, "__sub__.sub_iterator.__iter__", types=dict(self="sub_iterator"),
          yields=dict(elem=ELEM),
-         requires=["wf(self.a_fiber)", "wf(self.b_fiber)"], modifies=[],
+         requires=["wf(self.a_fiber)", "wf(self.b_fiber)", "not Metrics.collecting", FMT_OK("self.a_fiber"), FMT_OK("self.b_fiber")], modifies=[],
          ensures={"C04 C10": [fin(SORTED_OUT),
                               fin("forall(lambda k: " + SUB_IN_A % "len(a.seq)" + ", 0, len(out))"),
                               fin("forall(lambda k: " + NOT_IN_B + ", 0, len(out))"),
@@ -194,7 +191,7 @@ KEPT_ONLY_WRITTEN = ("forall(lambda k, j: implies(0 <= k and k < %%s and 0 <= j 
                      "%s.payloads[j].value != %s.g_default))" % (A, A, A, A))
 LSHIFT_REQ = ["wf(%s)" % A, "isnone(%s._max_coord)" % A, "%s.g_leaf" % A,
               "forall(lambda k: typeis(%s.payloads[k], 'Payload'), 0, len(%s.payloads))" % (A, A),
-              "wf(self.b_fiber)", "not (self.a_fiber is self.b_fiber)", "not Metrics.collecting", "isnone(self.spec_pos)",
+              "wf(self.b_fiber)", FMT_OK("self.b_fiber"), "not (self.a_fiber is self.b_fiber)", "not Metrics.collecting", "isnone(self.spec_pos)",
               # leaf rank: no next rank to pop from
               "isnone(%s._owner) or isnone(val(%s._owner).next_rank)" % (A, A),
               PAYLOADS_DISTINCT, PAYLOADS_ALLOCATED]
@@ -271,15 +268,17 @@ STORED_OR_DEFAULT = [
     "forall(lambda k: implies(forall(lambda j: self.coords[j] != out[k][0], 0, len(self.coords)), out[k][1].value == self.g_default), 0, len(out))"]
 
 contract(F, "iterRangeShape",
-         cases=[dict(self="Fiber", start="int", end="int"), dict(self="Fiber", start="int", end="int", step="int")],
-         case_names=["unit_step", "step"],
+         cases=[dict(self="Fiber", start="int", end="int"), dict(self="Fiber", start="int", end="int", step="int"),
+                dict(self="Fiber", start="int", end="int", tick="bool")],
+         case_names=["unit_step", "step", "unit_step_tick"],
          yields=dict(elem=ELEM, abstract="(yielded.coord, yielded.payload)"),
          requires=SHAPE_REQ, modifies=BOOK,
-         per_case={"unit_step": dict(ensures=["forall(lambda k: out[k][0] == start + k, 0, len(out))"])},
-         ensures={"C07 C10": ["unchanged_list(self.coords)", "unchanged_list(self.payloads)",
+         per_case={"unit_step": dict(ensures=["forall(lambda k: out[k][0] == start + k, 0, len(out))"]),
+                   "unit_step_tick": dict(ensures=["forall(lambda k: out[k][0] == start + k, 0, len(out))"])},
+         ensures={"C07 C10": ["unchanged_list(self.coords)", "unchanged_list(self.payloads)", "self._saved_pos == old(self._saved_pos) and self._saved_count == old(self._saved_count) and self._saved_dist == old(self._saved_dist)",
                               "len(out) == (0 if end <= start else (end - start + step - 1) // step)"] + STORED_OR_DEFAULT},
          loops={0: dict(types={"c": "int", "p": "Payload|Fiber"}, modifies=BOOK,
-                        invariant=["wf(self)", "not is_collecting", "len(out) == _i0"] + STORED_OR_DEFAULT)},
+                        invariant=["wf(self)", "not is_collecting", "len(out) == _i0", "self._saved_pos == old(self._saved_pos) and self._saved_count == old(self._saved_count) and self._saved_dist == old(self._saved_dist)"] + STORED_OR_DEFAULT)},
          note="every coordinate of range(start, end, step), each with the stored payload or a fresh default; the tree is not touched")
 
 REF_POST = [
